@@ -32,6 +32,7 @@ static inline uint32_t stamp(void) { return __atomic_add_fetch(&g_stamp, 1, __AT
 #define MAXCRL 6
 static struct { unsigned char *der; int len; int cls; } g_crl[MAXCRL];
 static int g_ncrl;
+static unsigned char *g_certpem; static int g_certpemlen;   /* server certificate file contents (read-only) */
 
 /* ------------------------------------------------------------------ operation log */
 enum { C_HS = 0, C_PRNG, C_VALIDATE, C_RESET, C_TKADD, C_TKDEL, C_CRL };
@@ -47,7 +48,7 @@ typedef struct {
     /* credential the client held before the operation */
     uint64_t off_id, off_tk, off_psk, off_sec; uint8_t off_key[16]; uint8_t off_haskey;
     /* outcome */
-    uint8_t completed, resumed, srv_err, srv_dead, cli_dead, cli_alert, srv_alert, cb_alert, data_ok, tampered;
+    uint8_t on_wire, completed, resumed, srv_err, srv_dead, cli_dead, cli_alert, srv_alert, cb_alert, data_ok, tampered;
     int16_t rc_c, rc_s;
     uint64_t srv_ms, cli_ms, srv_sid;
     /* credential the client holds afterwards */
@@ -169,7 +170,8 @@ static int ep_take(worker_t *w, ep_t *e, unsigned char **out)
     return tot;
 }
 
-typedef struct { int round; int corrupt_round; int stop_round; int tampered; uint64_t sid_at_tamper; int resumed_at_tamper; } pumpctl_t;
+typedef struct { int round; int corrupt_round; int stop_round; int tampered; uint64_t sid_at_tamper; int resumed_at_tamper;
+                 const unsigned char *cred; int credlen; int on_wire; } pumpctl_t;
 
 /* move flights until both sides are quiet.  Even rounds: client sends.  Returns 1 if stopped by stop_round. */
 static int pump(worker_t *w, ep_t *c, ep_t *s, pumpctl_t *pc)
@@ -182,6 +184,7 @@ static int pump(worker_t *w, ep_t *c, ep_t *s, pumpctl_t *pc)
         unsigned char *b; int n = ep_take(w, snd, &b);
         if (n > 0) {
             idle = 0;
+            if (r == 0 && pc->cred && pc->credlen > 0 && n >= pc->credlen) pc->on_wire = memmem(b, n, pc->cred, pc->credlen) != NULL;
             if (r == pc->stop_round) { free(b); pc->round++; return 1; }
             if (r == pc->corrupt_round && !pc->tampered) {
                 /* damage the last record of the client's flight: its MAC/tag no longer verifies */
@@ -242,6 +245,16 @@ static void op_handshake(worker_t *w, lc_t *lc, int mode)
     set_opts(&so, lc->ver, 1, 0); set_opts(&co, lc->ver, 0, lc->lt == LT_TK12);
     psCipher16_t cs[1] = { lc->suite };
     pumpctl_t pc; memset(&pc, 0, sizeof pc); pc.corrupt_round = pc.stop_round = -1;
+    /* the credential bytes the client holds; looked for in its ClientHello (a client that does not put its credential
+       on the wire - e.g. after an aborted handshake left its ticket state machine mid-way - cannot be resumed) */
+    unsigned char credbuf[1024];
+    {
+        const sslSessionId_t *sd = lc->sid; const unsigned char *p = NULL; int n = 0;
+        if (lc->lt == LT_PSK13) { if (sd->psk && sd->psk->pskId) { p = sd->psk->pskId; n = sd->psk->pskIdLen; } }
+        else if (lc->lt == LT_TK12) { if (sd->sessionTicket && sd->cipherId) { p = sd->sessionTicket; n = sd->sessionTicketLen; } }
+        else if (sd->cipherId && sd->idLen > 0) { p = sd->id; n = sd->idLen; }
+        if (p && n > 0 && n <= (int) sizeof credbuf) { memcpy(credbuf, p, n); pc.cred = credbuf; pc.credlen = n; }
+    }
     if (mode == M_ALERT_HS) pc.corrupt_round = 2;
     if (mode == M_ABANDON) { pc.stop_round = 1 + (int) vf_below(&w->rng, 3); o->sub = pc.stop_round; }
 
@@ -298,7 +311,7 @@ static void op_handshake(worker_t *w, lc_t *lc, int mode)
         }
     }
 out:
-    o->tampered = pc.tampered;
+    o->tampered = pc.tampered; o->on_wire = pc.on_wire;
     if (pc.tampered) { if (pc.resumed_at_tamper || !o->srv_sid) o->srv_sid = pc.sid_at_tamper; }
     if (S.ssl) { o->srv_err = (S.ssl->flags & SSL_FLAGS_ERROR) ? 1 : 0; if (!o->rc_s) o->rc_s = (int16_t) S.lastrc; }
     if (C.ssl && !o->rc_c) o->rc_c = (int16_t) C.lastrc;
@@ -328,14 +341,20 @@ static void op_validate(worker_t *w)
     op_t *o = op_new(w, C_VALIDATE); if (!o) return;
     o->call = stamp();
     o->rc = -9999;
+    /* psX509AuthenticateCert consumes the subject's signature buffer (in-place RSA public operation), so a parsed
+       certificate can be validated once only: parse a fresh private copy for every validation, as a handshake does */
+    psX509Cert_t *cert = NULL;
+    if (psX509ParseCertData(NULL, g_certpem, g_certpemlen, &cert, 0) < 0 || !cert) { o->rc = -9998; o->ret = stamp(); return; }
     for (psX509Cert_t *ca = g_ckeys->CAcerts; ca; ca = ca->next) {
         psX509Cert_t *found = NULL;
         jit(w);
-        int rc = psX509AuthenticateCert(NULL, w->cert, ca, &found, NULL, NULL);
-        if (rc == PS_SUCCESS && w->cert->authStatus == PS_CERT_AUTH_PASS) { o->rc = 0; break; }
-        if (o->rc == -9999 || rc != PS_CERT_AUTH_FAIL_DN) o->rc = rc ? rc : -w->cert->authStatus - 1000;
+        int rc = psX509AuthenticateCert(NULL, cert, ca, &found, NULL, NULL);
+        if (rc == PS_SUCCESS && cert->authStatus == PS_CERT_AUTH_PASS) { o->rc = 0; break; }
+        if (rc != PS_CERT_AUTH_FAIL_DN) { o->rc = rc ? rc : -cert->authStatus - 1000; break; }
+        o->rc = rc;
     }
-    o->sub = (uint8_t) w->cert->revokedStatus;
+    o->sub = (uint8_t) cert->revokedStatus;
+    psX509FreeCert(cert);
     o->ret = stamp();
 }
 static void op_reset(worker_t *w, lc_t *lc)
@@ -519,11 +538,11 @@ static void dump_op(const op_t *o)
                       (unsigned long long) o->off_sec, o->off_haskey ? k1 : "");
     }
     if (o->cat == C_HS) {
-        n += snprintf(b + n, sizeof b - n, ",\"mode\":\"%s\",\"suite\":%u,\"cauth\":%u,\"sub\":%u,\"done\":%u,\"res\":%u,\"srv_err\":%u,\"srv_dead\":%u,\"cli_dead\":%u,"
+        n += snprintf(b + n, sizeof b - n, ",\"mode\":\"%s\",\"wire\":%u,\"suite\":%u,\"cauth\":%u,\"sub\":%u,\"done\":%u,\"res\":%u,\"srv_err\":%u,\"srv_dead\":%u,\"cli_dead\":%u,"
                       "\"cli_alert\":%u,\"srv_alert\":%u,\"cb_alert\":%u,\"data_ok\":%u,\"tampered\":%u,\"rc_c\":%d,\"rc_s\":%d,"
                       "\"srv_ms\":\"%llx\",\"cli_ms\":\"%llx\",\"srv_sid\":\"%llx\",\"iss_id\":\"%llx\",\"iss_tk\":\"%llx\",\"iss_psk\":\"%llx\",\"iss_sec\":\"%llx\",\"iss_key\":\"%s\","
                       "\"sent_c\":%d,\"sent_s\":%d,\"got_c\":%d,\"got_s\":%d",
-                      mode_name[o->mode], o->suite, o->cauth, o->sub, o->completed, o->resumed, o->srv_err, o->srv_dead, o->cli_dead,
+                      mode_name[o->mode], o->on_wire, o->suite, o->cauth, o->sub, o->completed, o->resumed, o->srv_err, o->srv_dead, o->cli_dead,
                       o->cli_alert, o->srv_alert, o->cb_alert, o->data_ok, o->tampered, o->rc_c, o->rc_s,
                       (unsigned long long) o->srv_ms, (unsigned long long) o->cli_ms, (unsigned long long) o->srv_sid,
                       (unsigned long long) o->iss_id, (unsigned long long) o->iss_tk, (unsigned long long) o->iss_psk, (unsigned long long) o->iss_sec, o->iss_haskey ? k2 : "",
@@ -549,6 +568,8 @@ int main(int argc, char **argv)
     if (g_nthreads < 1 || g_nthreads > 64 || g_nops < 1) die("bad --threads/--ops", 0);
     if (matrixSslOpen() < 0) die("matrixSslOpen", -1);
     load_keys();
+    { FILE *f = fopen(pathf("%s/RSA/2048_RSA.pem", g_keydir), "rb"); if (!f) die("cert file", 0);
+      g_certpem = malloc(65536); g_certpemlen = (int) fread(g_certpem, 1, 65536, f); fclose(f); }
     const char *crls = vf_arg("--crl", NULL);
     if (crls) load_crls(crls);
 
